@@ -1325,6 +1325,198 @@ fn direct_format4_family(run: &Run) {
     l.merge(run, "F7");
 }
 
+/// F8: 32-bit count fields around 65535 / 65536, built through the write-side types:
+/// one selector with n non-default mappings, one selector with n default ranges, n selector records.
+fn check_uvs_counts(run: &Run, d: &Value, l: &mut Local) {
+    l.evals += 1;
+    let what = d["what"].as_str().unwrap_or("").to_string();
+    let n = d["n"].as_u64().unwrap_or(0) as u32;
+    let case = || {
+        let mut c = d.clone();
+        c["kind"] = json!("uvs_counts");
+        c
+    };
+    // expected answers for a (character, selector) pair
+    let nd_cp = |i: u32| 0x10000 + i;
+    let nd_gid = |i: u32| 1 + (i % 65000) as u16;
+    let rg_cp = |i: u32| 0x20000 + 2 * i;
+    let sel_of = |i: u32| 0x10_0000 + i; // n distinct ascending 24-bit selector values
+    let r = guard(|| {
+        let mut cmap = wc::Cmap::from_mappings(
+            UVS_BASE.iter().map(|(c, g)| (char::from_u32(*c).unwrap(), GlyphId::new(*g as u32))),
+        )
+        .expect("base mapping is conflict free");
+        let one_nd = |cp: u32, g: u16| wc::NonDefaultUvs::new(1, vec![wc::UvsMapping::new(Uint24::new(cp), g)]);
+        let (records, length): (Vec<wc::VariationSelector>, u32) = match what.as_str() {
+            "nondefault" => (
+                vec![wc::VariationSelector::new(
+                    Uint24::new(0xFE00),
+                    None,
+                    Some(wc::NonDefaultUvs::new(n, (0..n).map(|i| wc::UvsMapping::new(Uint24::new(nd_cp(i)), nd_gid(i))).collect())),
+                )],
+                10 + 11 + 4 + 5 * n,
+            ),
+            "default" => (
+                vec![wc::VariationSelector::new(
+                    Uint24::new(0xFE00),
+                    Some(wc::DefaultUvs::new(n, (0..n).map(|i| wc::UnicodeRange::new(Uint24::new(rg_cp(i)), 0)).collect())),
+                    None,
+                )],
+                10 + 11 + 4 + 4 * n,
+            ),
+            _ => (
+                (0..n)
+                    .map(|i| {
+                        let nd = (i == 0 || i == n - 1 || i == n / 2).then(|| one_nd(0x41, nd_gid(i)));
+                        wc::VariationSelector::new(Uint24::new(sel_of(i)), None, nd)
+                    })
+                    .collect(),
+                10 + 11 * n + 3 * 9,
+            ),
+        };
+        let count = records.len() as u32;
+        let sub = wc::CmapSubtable::format_14(length, count, records);
+        cmap.encoding_records.insert(1, wc::EncodingRecord::new(wc::PlatformId::Unicode, 5, sub));
+        dump_table(&cmap)
+    });
+    l.trans += 2;
+    let bytes = match r {
+        Ok(Ok(b)) => b,
+        Ok(Err(e)) => {
+            run.violation(
+                &format!("Cmap14 with a 32-bit {what} count above 65535 is refused by the compiler"),
+                &format!("{what} count {n}: {e}"),
+                case(),
+            );
+            return;
+        }
+        Err(p) => {
+            run.violation(&format!("Cmap14 compile panic: {} in {}", p.kind(), p.site()), &format!("{what} count {n}: {}", p.message), case());
+            return;
+        }
+    };
+    l.compiled += 1;
+    let font_bytes = FontBuilder::new()
+        .add_raw(Tag::new(b"cmap"), bytes)
+        .add_raw(Tag::new(b"maxp"), maxp_bytes())
+        .build();
+    let r = guard(|| {
+        let font = FontRef::new(&font_bytes).expect("font parses");
+        let cmap = font.cmap().expect("cmap parses");
+        let charmap = Charmap::new(&font);
+        let charmap_ix = MappingIndex::new(&font).charmap(&font);
+        let mut c14 = None;
+        for rec in cmap.encoding_records() {
+            if let Ok(rc::CmapSubtable::Format14(t)) = rec.subtable(cmap.offset_data()) {
+                c14 = Some(t);
+            }
+        }
+        let Some(c14) = c14 else {
+            run.violation("compiled Cmap14 sub-table not found / unreadable", &format!("{what} count {n}"), case());
+            return;
+        };
+        // boundary sample: first / middle / last entry and non-members on both sides
+        let mut queries: Vec<(u32, u32, Option<MapVariant>)> = vec![];
+        let v = |g: u16| Some(MapVariant::Variant(GlyphId::new(g as u32)));
+        match what.as_str() {
+            "nondefault" => {
+                for i in [0, 1, n / 2, 65534, 65535.min(n - 1), n - 2, n - 1] {
+                    queries.push((nd_cp(i), 0xFE00, v(nd_gid(i))));
+                }
+                queries.push((nd_cp(0) - 1, 0xFE00, None));
+                queries.push((nd_cp(n), 0xFE00, None));
+                queries.push((nd_cp(0), 0xFE01, None));
+            }
+            "default" => {
+                for i in [0, 1, n / 2, 65534, 65535.min(n - 1), n - 2, n - 1] {
+                    queries.push((rg_cp(i), 0xFE00, Some(MapVariant::UseDefault)));
+                    queries.push((rg_cp(i) + 1, 0xFE00, None));
+                }
+                queries.push((rg_cp(0) - 1, 0xFE00, None));
+            }
+            _ => {
+                for i in [0, n / 2, n - 1] {
+                    queries.push((0x41, sel_of(i), v(nd_gid(i))));
+                }
+                for i in [1, 65534.min(n - 2), n - 2] {
+                    if i != n / 2 {
+                        queries.push((0x41, sel_of(i), None));
+                    }
+                }
+                queries.push((0x41, sel_of(n), None));
+            }
+        }
+        for (cp, sel, exp) in queries {
+            for (api, got) in [
+                ("Cmap14::map_variant", c14.map_variant(cp, sel)),
+                ("Charmap::map_variant", charmap.map_variant(cp, sel)),
+                ("MappingIndex::charmap().map_variant", charmap_ix.map_variant(cp, sel)),
+            ] {
+                if got != exp {
+                    run.violation(
+                        &format!("{api} wrong answer in a table with a {what} count around 65536"),
+                        &format!("{what} count {n}: (U+{cp:04X}, U+{sel:04X}) = {got:?}, encoded {exp:?}"),
+                        case(),
+                    );
+                }
+            }
+            l.lookups += 3;
+        }
+        let want = match what.as_str() {
+            "selectors" => 3,
+            _ => n as usize,
+        };
+        let got = c14.iter().take(want + 10).count();
+        if got != want || charmap.variant_mappings().take(want + 10).count() != want {
+            run.violation(
+                &format!("Cmap14::iter yields the wrong number of sequences in a table with a {what} count around 65536"),
+                &format!("{what} count {n}: {got} sequences, {want} encoded"),
+                case(),
+            );
+        }
+        for (c, g) in UVS_BASE {
+            if charmap.map(c) != Some(GlyphId::new(g as u32)) {
+                run.violation("Charmap::map wrong answer for a mapped character (BMP) beside a Cmap14", &format!("U+{c:04X}"), case());
+            }
+        }
+        let mut h = Fnv::new();
+        h.str("uvs_counts");
+        h.str(&what);
+        h.u64(n as u64);
+        l.all.insert(h.finish());
+        l.nontrivial.insert(h.finish());
+    });
+    if let Err(p) = r {
+        run.violation(&format!("Cmap14 reader panic: {} in {}", p.kind(), p.site()), &format!("{what} count {n}: {}", p.message), case());
+    }
+}
+
+fn uvs_counts_family(run: &Run) {
+    let counts: Vec<u32> = match run.tier {
+        Tier::Quick => vec![65535, 65536],
+        Tier::Thorough => vec![65534, 65535, 65536, 65537, 70000],
+    };
+    run.bound("F8.counts", json!(counts));
+    run.bound("F8.fields", json!(["numUVSMappings of one selector", "numUnicodeValueRanges of one selector", "numVarSelectorRecords"]));
+    let mut cases = vec![];
+    for what in ["nondefault", "default", "selectors"] {
+        for &n in &counts {
+            cases.push(json!({"what": what, "n": n}));
+        }
+    }
+    let locals: Vec<Local> = cases
+        .par_iter()
+        .map(|d| {
+            let mut l = Local::new();
+            check_uvs_counts(run, d, &mut l);
+            l
+        })
+        .collect();
+    for l in locals {
+        l.merge(run, "F8");
+    }
+}
+
 fn uvs_family(run: &Run) {
     let bodies = uvs_bodies(false);
     run.bound("F4.selectors", json!(UVS_SELECTORS));
@@ -1467,6 +1659,8 @@ fn edge_input(d: &Value) -> (Vec<(u32, u16)>, bool) {
                 })
                 .collect()
         }
+        // n isolated supplementary characters: n format-12 groups (32-bit numGroups)
+        "isolated_supp" => (0..n as u32).map(|i| (0x10000 + 2 * i, 1 + (i % 60000) as u16)).collect(),
         // a run of n characters with unordered glyphs: one range-offset segment with n glyph ids
         "scrambled" => (0..n as u32).map(|i| (0x100 + i, 1 + ((i * 7919) % 60000) as u16)).collect(),
         _ => vec![],
@@ -1690,8 +1884,13 @@ fn edge_family(run: &Run) {
         for g in 0..3 {
             cases.push(json!({"family":"allbmp","g":g,"supp":supp}));
         }
+        if !supp {
+            for n in [65535usize, 65536, 65537] {
+                cases.push(json!({"family":"isolated_supp","n":n,"supp":false}));
+            }
+        }
     }
-    run.bound("F5.families", json!(["dup (identical pairs repeated)", "conflict (must be Err)", "gid0 target (no panic, others exact)", "U+FFFF as input (no panic, others exact)", "isolated n (n+1 segments)", "scrambled run of n (one range-offset segment)", "all BMP scalars (in order / reversed / stride-2 glyphs)"]));
+    run.bound("F5.families", json!(["dup (identical pairs repeated)", "conflict (must be Err)", "gid0 target (no panic, others exact)", "U+FFFF as input (no panic, others exact)", "isolated n (n+1 segments)", "scrambled run of n (one range-offset segment)", "all BMP scalars (in order / reversed / stride-2 glyphs)", "isolated_supp n in {65535, 65536, 65537} (n format-12 groups)"]));
     run.count("F5.descriptions", cases.len() as u64);
     // small descriptions first and sequentially (so that the replay written for an identity is the
     // smallest failing description), the large ones in parallel
@@ -1742,6 +1941,7 @@ fn body(run: &Run, replay: Option<&Value>) {
             }
             Some("uvs") => check_uvs(run, &uvs_from_json(case), &mut l),
             Some("edge") => check_edge(run, case, &mut l),
+            Some("uvs_counts") => check_uvs_counts(run, case, &mut l),
             Some("direct4") => println!("direct4 cases are re-run by the tier (F7, 9 cases)"),
             Some("combined") => {
                 let base: Vec<(u32, u16)> = case["mapping"]
@@ -1785,5 +1985,6 @@ fn body(run: &Run, replay: Option<&Value>) {
     uvs_family(run);
     combined_family(run);
     direct_format4_family(run);
+    uvs_counts_family(run);
     edge_family(run);
 }
